@@ -1,2 +1,3 @@
 pub mod trace;
 pub mod sel;
+pub mod linktraffic;
